@@ -448,6 +448,20 @@ func runC16(c *Checker) {
 				okk, why := errCheckedAndReturned(call, 1)
 				c.decide(okk, "RFULL", fmt.Sprintf("%s|ReadFull into %s", fnName(fn), w.canonFB(cc.Args[1])), instrPos(call),
 					"full read, error "+why, "io.ReadFull whose error is not acted upon: "+why)
+				// io.ReadAtLeast(r, buf, min) may take up to len(buf) bytes: with min < len(buf) how much
+				// of the *next* act or record it swallows depends on how the transport fragments the
+				// stream. It is an exact-length read only when min is len(buf) itself.
+				if isPkgFunc(sc, "io", "ReadAtLeast") {
+					exact := false
+					if lc, ok := unwrapLoadAlloc(cc.Args[2]).(*ssa.Call); ok {
+						if b, ok := lc.Call.Value.(*ssa.Builtin); ok && b.Name() == "len" &&
+							(lc.Call.Args[0] == cc.Args[1] || w.canon(lc.Call.Args[0]) == w.canon(cc.Args[1])) {
+							exact = true
+						}
+					}
+					c.decide(exact, "RFULL", fmt.Sprintf("%s|ReadAtLeast is exact|%s", fnName(fn), w.canonFB(cc.Args[1])), instrPos(call),
+						"min = len(buf)", "io.ReadAtLeast with a minimum that is not len(buf): the read can run past the field into the next act/record, depending on how the transport fragments the stream")
+				}
 			}
 		})
 	}
